@@ -354,7 +354,7 @@ def _nm(shape):
     return ",".join(f"{k}{n if k == '1d' else ''}" for k, n in shape)
 
 
-def obligations(tier, seed):
+def _obligations(tier, seed):
     obs = []
     for mode in ("F", "R"):
         obs.append((f"disabled/{mode}", ob_disabled(mode)))
@@ -383,3 +383,8 @@ def obligations(tier, seed):
                 nm = f"{mode}/{'LP' if lp else 'lp'}{'LR' if lr else 'lr'}/prior-batch/[{_nm(shape)}]"
                 obs.append((nm, ob_sequence(mode, shape, lp, lr, prior_batch=True, name=nm)))
     return obs
+
+
+def obligations(tier, seed):
+    from . import conform
+    return _obligations(tier, seed) + conform.obligations(PROPERTY, tier)
